@@ -27,6 +27,8 @@ GOALS = [
     ('set', {'A': "'a set", 'B': "'a set"}, 'A Sub A Un B'),
     ('logic_base', {'R': "'a => 'a => bool", 'x': "'a"}, '(!x. !y. R x y) --> (!y. R x y)'),
     ('logic_base', {'P': "'a => bool", 'C': 'bool'}, '(?x. P x) --> (?y. P y) --> C --> C'),
+    ('logic_base', {'A': 'bool', 'B': 'bool', 'C': 'bool'}, "A & B --> (!x::'a. C --> A)"),
+    ('logic_base', {'P': "'a => bool", 'Q': "'a => bool", 'C': 'bool'}, '(?x. P x) --> (?y. Q y) --> C'),
 ]
 
 
@@ -104,6 +106,20 @@ class Harness:
                     step = {k: v for k, v in r.items() if not k.startswith('_') and k != 'display'}
                     adv = {'_goal': r.get('_goal'), '_fact': r.get('_fact')}
                     evs.append(('suggest', step, adv))
+                    # declared parameters that the suggestion leaves open are supplied from a menu derived from the state
+                    from server import method
+                    sig = method.global_methods[step['method_name']].sig
+                    open_params = [p for p in sig if p not in step]
+                    if open_params == ['names']:
+                        for nm in ('x1', 'w'):
+                            evs.append(('suggest-filled', dict(step, names=nm), adv))
+                    elif open_params == ['s']:
+                        try:
+                            scope = sorted(state.get_vars(gid).items())
+                        except Exception:
+                            scope = []
+                        for nm, T in scope[:3]:
+                            evs.append(('suggest-filled', dict(step, s=nm), adv))
             # parameterised operations.  Formulas that already occur as the statement of a line are left out of the
             # cut / cases menus: duplicated sequents trigger the known family F-C13-2 (see known_findings.json, whose
             # concrete histories are replayed separately by known_histories()).
@@ -307,7 +323,7 @@ def explore_goal(h, goal, tier, agg, prop_id):
         return s
 
     def desc(hist):
-        return [h.show_step(e[1]) if e[0] in ('suggest', 'param') else list(e) for e in hist]
+        return [h.show_step(e[1]) if e[0] in ('suggest', 'suggest-filled', 'param') else list(e) for e in hist]
     depth = 0
     while frontier and depth < b['depth']:
         depth += 1
@@ -335,7 +351,9 @@ def explore_goal(h, goal, tier, agg, prop_id):
                     agg.add(case, Outcome('asks-parameters'))
                     continue
                 except Exception as e:
-                    if ev[0] == 'suggest' and h.mode == 'C14':
+                    if ev[0] == 'suggest-filled':
+                        agg.add(case, Outcome('filled-variant-fails'))
+                    elif ev[0] == 'suggest' and h.mode == 'C14':
                         from server import method
                         sig = method.global_methods[ev[1]['method_name']].sig
                         open_params = [p for p in sig if p not in ev[1]]
@@ -353,12 +371,12 @@ def explore_goal(h, goal, tier, agg, prop_id):
                     s = build(hist)
                     continue
                 bad = None
-                if h.mode == 'C13' or ev[0] == 'suggest':
+                if h.mode == 'C13' or ev[0] in ('suggest', 'suggest-filled'):
                     bad = h.invariants(c, init_th, desc(hist))
-                if bad is None and h.mode == 'C14' and ev[0] == 'suggest':
+                if bad is None and h.mode == 'C14' and ev[0] in ('suggest', 'suggest-filled'):
                     bad = h.judge_suggestion(s, ev, c)
                 if bad is not None:
-                    if h.mode == 'C14' and ev[0] != 'suggest':
+                    if h.mode == 'C14' and ev[0] not in ('suggest', 'suggest-filled'):
                         bad = None
                 if bad is not None:
                     agg.add(case, viol(prop_id, bad[0], case, 'goal %r, history %r, then %s: %s' % (goal[2], desc(hist), h.show_step(ev[1]), bad[1])))
